@@ -402,6 +402,15 @@ class Executor(object):
             return [(s, ("val", V.mk_list([self.lift(v) for v in vals])))]
         return self.bind(self.eval_seq(st, e.elts), done)
 
+    def ev_Set(self, st, e):
+        def done(s, vals):
+            items = [self.lift(v) for v in vals]
+            alts = [(z3.And(*[ops.hashable(i) for i in items]) if items else z3.BoolVal(True),
+                     ("val", V.mk_seq(lambda n, a: V.VSet(n, a, z3.BoolVal(False)), items))),
+                    (z3.Not(z3.And(*[ops.hashable(i) for i in items])) if items else z3.BoolVal(False), ("raise", TypeError))]
+            return self.apply_op(s, alts, "set-literal")
+        return self.bind(self.eval_seq(st, e.elts), done)
+
     def ev_Dict(self, st, e):
         if any(k is None for k in e.keys):
             raise Unsupported("dict unpacking in literal")
@@ -718,7 +727,7 @@ class Executor(object):
             return [(st, ("val", V.VBool(r if isinstance(op, ast.Eq) else z3.Not(r))))]
         if isinstance(op, (ast.In, ast.NotIn)):
             exact = None
-            if isinstance(b_node, (ast.Tuple, ast.List)):
+            if isinstance(b_node, (ast.Tuple, ast.List, ast.Set)):
                 exact = self.literal_items(b, len(b_node.elts))
             res = self.apply_op(st, ops.op_in(a, b, exact), "in:" + (ast.unparse(b_node) if b_node is not None else ""))
             if isinstance(op, ast.NotIn):
@@ -843,8 +852,49 @@ class Executor(object):
         if t is not None:
             return t(self, st, args, kwargs, text)
         if key.startswith("jsonrpclib."):
-            raise MissingContract(key)
+            return self.inline_call(st, fn, key, args, kwargs, text)
         raise Unsupported("call of %s (no trusted contract)" % key)
+
+    def inline_call(self, st, fn, key, args, kwargs, text):
+        """a repository function without a contract (e.g. a helper introduced by a change): its body is
+        executed in place.  The caller is then checked against the callee's body, which is stronger than a
+        contract; only modularity is lost."""
+        from . import extract, contracts as CT
+        import copy as _copy
+        depth = getattr(self, "inline_depth", 0)
+        if depth >= 3:
+            raise MissingContract(key + " (inlining depth exceeded)")
+        from .verify import split_key
+        try:
+            modname, qual = split_key(key)
+            ft = extract.get_function(modname, qual)
+        except Exception as e:
+            raise MissingContract("%s (%s)" % (key, e))
+        env2 = _copy.copy(self.env)
+        env2.fn = ft
+        env2.module = extract.real_module(modname)
+        env2.cls = extract.real_object(modname, qual.rsplit(".", 1)[0]) if "." in qual else None
+        env2.contract = None
+        env2.real_fn = fn
+        sub = Executor(env2, self.max_paths)
+        sub.inline_depth = depth + 1
+        sub.dead_paths = self.dead_paths
+        sub.isinst_cands = self.isinst_cands
+        bound = CT.bind_arguments(fn, args, kwargs, self)
+        s0 = st.copy()
+        saved_locals = s0.locals
+        s0.locals = dict(bound)
+        s0.sig.append("inline:" + key)
+        self.inlined = getattr(self, "inlined", set())
+        self.inlined.add(key)
+        out = []
+        for o in sub.run(s0):
+            s2 = o.st
+            s2.locals = dict(saved_locals)
+            self.feas_checks += 0
+            out.append((s2, ("val", o.value) if o.kind == RETURN else ("raise", o.value)))
+        self.pruned += sub.pruned
+        return out
 
     def fn_key(self, fn):
         mod = getattr(fn, "__module__", None) or getattr(getattr(fn, "__objclass__", None), "__module__", "builtins")
